@@ -393,6 +393,10 @@ func (r *phRun) obs(a map[string]interface{}) *gossipv1.SignedObservation {
 		o.Hash = hash[:31]
 	case "longhash":
 		o.Hash = append(append([]byte{}, hash...), 1)
+	case "prehash": // bytes in front of a genuine digest: cropping to the last 32 bytes would make the signature verify
+		o.Hash = append([]byte{1}, hash...)
+	case "prehash2":
+		o.Hash = append([]byte{0, 0}, hash...)
 	case "niladdr":
 		o.Addr = nil
 	case "shortaddr":
@@ -466,6 +470,18 @@ func (r *phRun) step(st vhStep) {
 		m := vhMap(st.A, "m")
 		bd := r.bodyFor(m)
 		ts := time.Unix(int64(bd.Ts), int64(vhInt(m, "tsns", 0)))
+		// environment fact for the model (input arithmetic only): against which of the scenario's bodies, were it the
+		// stored VAA of this id, this observation comes later than the settlement time (a stored VAA with an empty
+		// payload cannot be decoded again, so nothing is late against it)
+		late := map[string]interface{}{}
+		for d, b := range r.bodies {
+			late[d] = len(b.Payload) > 0 && ts.Sub(time.Unix(int64(b.Ts), 0)) > 30*time.Second
+		}
+		na := map[string]interface{}{"late": late}
+		for k, v := range st.A {
+			na[k] = v
+		}
+		st.A = na
 		k := &common.MessagePublication{TxHash: r.tx(vhStr(m, "tx")), Timestamp: ts, Nonce: bd.Nonce, Sequence: bd.Seq,
 			ConsistencyLevel: bd.CL, EmitterChain: vaa.ChainID(bd.EChain), TargetChain: vaa.ChainID(bd.TChain),
 			EmitterAddress: vaa.Address(bd.Emitter), Payload: bd.Payload}
